@@ -11,7 +11,7 @@
 (* The POSTCONDITION requires that the whole trace was consumed; the       *)
 (* runner decides the exit status from the JUDGE lines.                    *)
 (***************************************************************************)
-EXTENDS TauRule, TauKnown, TauIdent, TauKeys, TauOpt, Json, IOUtils, TLC
+EXTENDS TauRule, TauKnown, TauIdent, TauKeys, TauKeyText, TauOpt, Json, IOUtils, TLC
 
 Rec == ndJsonDeserialize(IOEnv.TRACE)
 
@@ -199,6 +199,26 @@ TrIdent ==
           THEN Bad("ident_parse", [out |-> e.out, k |-> e.k, a |-> e.a, ic |-> e.ic, want |-> m])
      ELSE Good
 
+(* the textual layer of mapping KEYS on its own (C04, C02, C16): spec/TauKeyText.tla *)
+TrKey ==
+  /\ IsEv("key") /\ Adv /\ UNCHANGED rvars
+  /\ LET a == KeyAdm(cur.text, e.seq)
+         eng == KeyEng(cur.text, e.seq)
+         obs == [st |-> e.out, m |-> e.m, n |-> e.n, f |-> e.f]
+         \* explained by the recorded finding: the engine-layer model (which re-joins words with one
+         \* blank) predicts exactly this observation and it is the pinned meaning with collapsed blanks
+         kws == IF a.pinned /\ obs = eng /\ obs = KCollapsed(a.want) /\ obs # a.want THEN <<"key_whitespace">> ELSE <<>>
+         KBad(rule, info) == /\ PrintT("JUDGE " \o ToJson([l |-> l, cl |-> cl, rule |-> rule, info |-> info,
+                                                            also |-> <<>>, devs |-> kws]))
+                             /\ nbad' = nbad + 1 /\ UNCHANGED cl IN
+     IF e.out \in {"panic", "loop"} THEN KBad("key_panic", [out |-> e.out, seq |-> e.seq])
+     ELSE IF e.out = "odd" THEN KBad("key_parse", [out |-> e.out, seq |-> e.seq, f |-> e.f])
+     ELSE IF a.pinned /\ obs # a.want
+          THEN KBad("key_parse", [out |-> e.out, seq |-> e.seq, m |-> e.m, n |-> e.n, f |-> e.f, want |-> a.want, model |-> eng])
+     ELSE IF e.out = "ok" /\ ~KWritten(e.f, cur.text)
+          THEN KBad("key_fabricated", [seq |-> e.seq, f |-> e.f])
+     ELSE Good
+
 (* arbitrary text / YAML shapes: loading and every textual layer return a value or an error *)
 TrFload ==
   /\ IsEv("fload") /\ Adv /\ UNCHANGED rvars
@@ -278,7 +298,7 @@ TrIcLoad ==
   /\ IF e.out \notin {"panic", "loop"} /\ (e.out = "ok") = (phase = "loaded") THEN Good
      ELSE Bad(IF e.out \in {"panic", "loop"} THEN "load_panic" ELSE "ic_load_differs", [out |-> e.out])
 
-TrNext == TrEdit \/ TrIcLoad \/ TrFinds \/ TrAlt \/ TrReopt \/ TrFound \/ TrIdent \/ TrFload \/ TrCore \/ TrCase \/ TrSkip \/ TrLoad \/ TrLoad2 \/ TrOpt \/ TrMatch \/ TrTri \/ TrValidate \/ TrSer \/ TrReload
+TrNext == TrKey \/ TrEdit \/ TrIcLoad \/ TrFinds \/ TrAlt \/ TrReopt \/ TrFound \/ TrIdent \/ TrFload \/ TrCore \/ TrCase \/ TrSkip \/ TrLoad \/ TrLoad2 \/ TrOpt \/ TrMatch \/ TrTri \/ TrValidate \/ TrSer \/ TrReload
 
 TrSpec == TrInit /\ [][TrNext]_tvars
 
